@@ -7,15 +7,15 @@ use crate::SpaceUsage;
 use std::mem::size_of;
 
 fn within(reported: usize, retained: usize, components: usize) -> bool {
-    let tol = retained / 32 + 48 * components;
+    let tol = retained / 32 + 24 * components;
     (if reported > retained { reported - retained } else { retained - reported }) <= tol
 }
 
-// @h props=C16,C04:t tier=quick family=A mem=6 timeout=1800 role=space.rssupportplain
-// @bound RSSupportPlain<256/512> with 0..=6 superblock records and four select-sample buffers of 0..=64 entries each, all lengths symbolic and independent; KiB/MiB/GiB are the byte count scaled
+// @h props=C16,C04:t tier=quick family=A mem=16 timeout=1800 role=space.rssupportplain
+// @bound RSSupportPlain<256/512> with 0..=6 superblock records and four select-sample buffers of 0..=32 entries each, all lengths symbolic and independent; KiB/MiB/GiB are the byte count scaled
 // @funcs RSSupportPlain::space_usage_byte, SuperblockPlain::space_usage_byte, Box<[T]>::space_usage_byte, SpaceUsage::space_usage_KiB, SpaceUsage::space_usage_MiB, SpaceUsage::space_usage_GiB
 #[kani::proof]
-#[kani::unwind(66)]
+#[kani::unwind(34)]
 fn c16_rssupportplain() {
     let sb = kani::vec::any_vec::<[u128; 4], 6>();
     let nsb = sb.len();
@@ -27,10 +27,10 @@ fn c16_rssupportplain() {
         }
         j += 1;
     }
-    let s0 = kani::vec::any_vec::<u32, 64>();
-    let s1 = kani::vec::any_vec::<u32, 64>();
-    let s2 = kani::vec::any_vec::<u32, 64>();
-    let s3 = kani::vec::any_vec::<u32, 64>();
+    let s0 = kani::vec::any_vec::<u32, 32>();
+    let s1 = kani::vec::any_vec::<u32, 32>();
+    let s2 = kani::vec::any_vec::<u32, 32>();
+    let s3 = kani::vec::any_vec::<u32, 32>();
     let retained = size_of::<RSSupportPlain<256>>() + 64 * nsb + 4 * (s0.len() + s1.len() + s2.len() + s3.len());
     let rs = RSSupportPlain::<256> {
         superblocks: sbs.into_boxed_slice(),
@@ -42,7 +42,7 @@ fn c16_rssupportplain() {
     assert!(rs.space_usage_MiB() == rep as f64 / (1024.0 * 1024.0));
     assert!(rs.space_usage_GiB() == rep as f64 / (1024.0 * 1024.0 * 1024.0));
     kani::cover!(nsb == 6, "largest directory");
-    kani::cover!(rs.select_samples[3].len() == 64 && nsb == 0, "only one sample buffer is large");
+    kani::cover!(rs.select_samples[3].len() == 32 && nsb == 0, "only one sample buffer is large");
     core::mem::forget(rs);
     core::mem::forget(sb);
 }
